@@ -5,7 +5,7 @@ import json, os, re, subprocess
 VERIF = os.path.dirname(os.path.dirname(os.path.abspath(__file__)))
 
 CHECKS = {
- "C01": ("Generated and mutated inputs, an alignment sweep and a nesting-depth sweep through ~45 safe entry points; a panic, a fatal signal (SIGSEGV/SIGABRT/stack overflow, captured by a signal handler that writes the replay file), an out-of-bounds access next to a guard page or a leak/double free seen by the counting allocator is a violation. Thorough adds a libFuzzer+ASan campaign with the same oracle.",
+ "C01": ("Generated and mutated inputs, wide and number-heavy documents, an alignment sweep and a nesting-depth sweep through ~60 safe entry points (owned results re-read after the input was unmapped, borrowed results re-read after their producer was dropped; a reduced run in the sort_keys build); a panic, a fatal signal (SIGSEGV/SIGABRT/stack overflow, captured by a signal handler that writes the replay file), an out-of-bounds access next to a guard page or a leak/double free seen by the counting allocator is a violation. Thorough adds a libFuzzer+ASan campaign with the same oracle.",
          "Trusts the guard-page placement and counting allocator of the harness, ASan/LSan in the thorough tier; absence beyond explored inputs is not claimed.",
          "property-based testing + coverage-guided fuzzing (libFuzzer/ASan) with crash, guard-page and allocation-ledger oracles"),
  "C02": ("Bounded-exhaustive enumeration (all token sequences up to length 6/7 over a 14-token alphabet, all number candidates up to length 5/6 in five contexts, long numbers x damage tails at every block position) plus generated and mutated documents, each through ~35 entry-point routes, compared with an independent RFC 8259 recogniser in both directions.",
@@ -32,19 +32,19 @@ CHECKS = {
  "C09": ("All 1,114,112 code points as escapes and raw UTF-8 (exhaustive), each well-formed and malformed string feature at every position 0..=130 of strings of many lengths in four placements and several offsets, random and damaged literals, through ~25 decoders in strict and lossy mode (also the utf8_lossy build), compared with the reference decoder applied to the whole document.",
          "Trusts the reference string decoder and String::from_utf8_lossy.",
          "exhaustive positional sweeps + property-based testing against a reference decoder"),
- "C10": ("Generated, skip-stress and positional-sweep documents x every path of the reference tree (cap 64) plus perturbed paths through 20 get/pointer variants (checked, unchecked, all carriers, DOM, lazy, owned-lazy); result must equal the reference lookup, raw text the exact source span (pointer arithmetic).",
+ "C10": ("Generated, skip-stress, many-small, bracket-burst, large multi-byte, wide-object, confusable-key and positional-sweep documents (native, sort_keys and baseline builds) x every path of the reference tree (cap 64) plus perturbed paths through 20 get/pointer variants (checked, unchecked, all carriers, DOM, lazy, owned-lazy); result must equal the reference lookup, raw text the exact source span (pointer arithmetic).",
          "Trusts the reference parser/lookup; unchecked variants run on well-formed input only.",
          "model-based property-based testing (reference lookup) with positional sweeps"),
  "C11": ("Generated documents with generated shape-consistent path sets (shared prefixes, repeats, root, missing keys) through get_many/get_many_unchecked compared slot by slot with the reference lookup and with get; generated schemas derived from the document skeleton through get_by_schema compared with a reference merge.",
          "Trusts the reference parser; path sets mixing key/index children under one prefix are outside the quantifier.",
          "property-based testing against a reference lookup/merge model"),
- "C12": ("Generated containers with trailing bytes, size sweeps, random and systematic mutations through checked iterators over five carriers, unchecked iterators and LazyValue iterators; yielded items compared with a reference scan of the leading well-formed members, exactly one error, latching.",
+ "C12": ("Generated containers with trailing bytes, size sweeps, many-small and bracket-burst containers, random and systematic mutations through checked iterators over five carriers, unchecked iterators and LazyValue iterators (native and baseline builds); iterator adaptors (nth, skip, step_by, count, last, fold) must agree with plain iteration; yielded items compared with a reference scan of the leading well-formed members, exactly one error, latching.",
          "Trusts the reference scanner; tokenisation ambiguities (`00`, `1x`) and skip-valid-only members are accepted either way.",
          "property-based testing + exhaustive single-mutation sweeps against a reference scan"),
- "C13": ("Generated values of every type through LazyValue/OwnedLazyValue obtained from serde, struct fields, get, iterators, conversions and to_lazyvalue: the accessor set, children and verbatim serialization are compared with the reference tree; generated operation histories on OwnedLazyValue are mirrored on a model.",
+ "C13": ("Generated values of every type through LazyValue/OwnedLazyValue obtained from serde, struct fields, get, iterators, conversions and to_lazyvalue (default and arbitrary_precision builds): the accessor set, children and verbatim serialization are compared with the reference tree; generated operation histories on OwnedLazyValue are mirrored on a model.",
          "Trusts the reference parser; Display for OwnedLazyValue is not asserted.",
          "model-based property-based testing (views + operation histories)"),
- "C14": ("Mutated/truncated/garbage documents (random double mutations and exhaustive single-mutation sweeps) x paths of the undamaged document through checked get over all carriers, get_many, get_by_schema and the checked iterators; every returned fragment must be a well-formed value inside the input whose preceding input is a prefix of a well-formed text.",
+ "C14": ("Mutated/truncated/garbage documents (native and baseline builds; incl. long damaged numbers, invalid UTF-8 inside strings, member names with raw control characters or quotes) (random double mutations and exhaustive single-mutation sweeps) x paths of the undamaged document through checked get over all carriers, get_many, get_by_schema and the checked iterators; every returned fragment must be a well-formed value inside the input whose preceding input is a prefix of a well-formed text.",
          "Trusts the reference scanner's prefix rule.",
          "property-based testing + exhaustive single-mutation sweeps with a validity predicate"),
  "C15": ("Operation histories over a heap of DOM values (parsed, cloned, taken, macro-built) covering the public array/object/entry/index/pointer API, exhaustive for short sequences over a small universe and random long ones, interpreted in lock-step with a Vec/BTreeMap model; every live slot is compared after every step.",
